@@ -46,33 +46,44 @@ def bracketed (netloc : Bytes) : Bytes :=
   | some (_, after) => (match cut 93 after with | some (inner, _) => inner | none => after)
   | none => []
 
+/-- for a URL (after the scheme) that starts with `//`: (netloc, rest, bracket rules respected) -/
+def splitAuthority (brOk : Bytes → Bool) (url : Bytes) : Bytes × Bytes × Bool :=
+  match url with
+  | 47 :: 47 :: r =>
+    let n := (splitNetloc r).1
+    (n, (splitNetloc r).2,
+      if contains 91 n != contains 93 n then false else if contains 91 n then brOk (bracketed n) else true)
+  | _ => ([], url, true)
+
+/-- `url.split('#', 1)` / `url.split('?', 1)` when the separator occurs -/
+def splitAt1 (c : UInt8) (url : Bytes) : Bytes × Bytes :=
+  match cut c url with
+  | some (a, b) => (a, b)
+  | none => (url, [])
+
 /-- `urlsplit(url)`; `none` = ValueError -/
 def urlsplit (brOk : Bytes → Bool) (url0 : Bytes) : Option Split :=
-  let url := sanitize url0
-  let (scheme, url) := splitScheme url
-  let (netloc, url, ok) : Bytes × Bytes × Bool :=
-    match url with
-    | 47 :: 47 :: r =>
-      let (n, rest) := splitNetloc r
-      let o := contains 91 n
-      let c := contains 93 n
-      (n, rest, if o != c then false else if o then brOk (bracketed n) else true)
-    | _ => ([], url, true)
-  if !ok then none else
-  let (url, fragment) := match cut 35 url with | some (a, b) => (a, b) | none => (url, [])
-  let (url, query) := match cut 63 url with | some (a, b) => (a, b) | none => (url, [])
-  some ⟨scheme, netloc, url, query, fragment⟩
+  let sp := splitScheme (sanitize url0)
+  let au := splitAuthority brOk sp.2
+  if !au.2.2 then none else
+  let fr := splitAt1 35 au.2.1
+  let qu := splitAt1 63 fr.1
+  some ⟨sp.1, au.1, qu.1, qu.2, fr.2⟩
+
+/-- `netloc.rpartition('@')[2]` -/
+def afterUserinfo (netloc : Bytes) : Bytes :=
+  match rcut 64 netloc with
+  | some p => p.2
+  | none => netloc
 
 /-- `SplitResult._hostinfo` : (hostname text, port text) -/
 def hostinfo (netloc : Bytes) : Bytes × Bytes :=
-  let hi := match rcut 64 netloc with | some (_, b) => b | none => netloc
+  let hi := afterUserinfo netloc
   match cut 91 hi with
-  | some (_, br) =>
-    let (h, after) := match cut 93 br with | some (a, b) => (a, b) | none => (br, [])
-    let p := match cut 58 after with | some (_, b) => b | none => []
-    (h, p)
-  | none =>
-    match cut 58 hi with | some (a, b) => (a, b) | none => (hi, [])
+  | some p =>
+    let hp := splitAt1 93 p.2
+    (hp.1, (splitAt1 58 hp.2).2)
+  | none => splitAt1 58 hi
 
 /-- `.hostname` (`none` = None): lowered up to a `%` zone separator -/
 def hostname (netloc : Bytes) : Option Bytes :=
